@@ -160,6 +160,15 @@ theorem appCode_choiceCode (n p : Nat) (hn : 0 < n) (hp : p < 2 ^ n) :
   unfold choiceCode
   exact appCode_lamCode _ _ _ p hp (fun u _ => leastWitness_lt n u hn)
 
+theorem varCode_lt (n : Nat) : varCode n < 2 ^ n := by
+  unfold varCode
+  exact lamCode_lt _ _ _ (fun _ _ => by decide)
+
+/-- `_VAR` holds of everything -/
+theorem appCode_varCode (n v : Nat) (hv : v < n) : appCode (varCode n) v 2 = 1 := by
+  unfold varCode
+  exact appCode_lamCode (fun _ => 1) n 2 v hv (fun _ _ => by decide)
+
 /-! ### `StdBase` is a closed class -/
 
 theorem BaseTy.subst_un (σ : Ty.TyInst) : BaseTy.un.subst σ = BaseTy.un := by
@@ -213,7 +222,7 @@ theorem instVal_const (M : Model) (ρ : Valuation) (inst : Term.Inst) (m : Strin
 theorem stdBase_closed : ClosedClass StdBase := by
   refine ⟨?_, ?_, ?_⟩
   · intro M ρ k n T v hk h
-    refine ⟨?_, ?_, ?_, ?_, ?_, ?_, ?_, ?_, ?_, ?_⟩
+    refine ⟨?_, ?_, ?_, ?_, ?_, ?_, ?_, ?_, ?_, ?_, ?_⟩
     all_goals (try intro a)
     all_goals simp only [update_const ρ k n T v hk]
     · exact h.tru
@@ -226,8 +235,9 @@ theorem stdBase_closed : ClosedClass StdBase := by
     · exact h.ite a
     · exact h.some a
     · exact h.the a
+    · exact h.var_ a
   · intro M ρ σ _ h
-    refine ⟨?_, ?_, ?_, ?_, ?_, ?_, ?_, ?_, ?_, ?_⟩
+    refine ⟨?_, ?_, ?_, ?_, ?_, ?_, ?_, ?_, ?_, ?_, ?_⟩
     all_goals (try intro a)
     all_goals rw [pull_const_nonlogical M ρ σ _ _ (by decide) (by decide) (by decide)]
     · rw [Ty.subst_bool]; exact h.tru
@@ -240,8 +250,9 @@ theorem stdBase_closed : ClosedClass StdBase := by
     · rw [BaseTy.subst_ite, Model.size_pull]; exact h.ite _
     · rw [BaseTy.subst_choice, Model.size_pull]; exact h.some _
     · rw [BaseTy.subst_choice, Model.size_pull]; exact h.the _
+    · rw [Ty.subst_fn, Ty.subst_bool, Model.size_pull]; exact h.var_ _
   · intro M ρ inst h
-    refine ⟨?_, ?_, ?_, ?_, ?_, ?_, ?_, ?_, ?_, ?_⟩
+    refine ⟨?_, ?_, ?_, ?_, ?_, ?_, ?_, ?_, ?_, ?_, ?_⟩
     all_goals (try intro a)
     all_goals simp only [instVal_const]
     · exact h.tru
@@ -254,6 +265,7 @@ theorem stdBase_closed : ClosedClass StdBase := by
     · exact h.ite a
     · exact h.some a
     · exact h.the a
+    · exact h.var_ a
 
 /-! ### `StdBase` is inhabited: the oracle's standard valuation -/
 
@@ -291,6 +303,10 @@ theorem stdConst_Some (M : Model) (a : Ty) :
 theorem stdConst_The (M : Model) (a : Ty) :
     stdConst M "The" (BaseTy.choice a) = some (choiceCode (M.size a)) := by
   simp [stdConst, BaseTy.choice, Ty.fn, Ty.bool]
+
+theorem stdConst_VAR (M : Model) (a : Ty) :
+    stdConst M "_VAR" (Ty.fn a Ty.bool) = some (varCode (M.size a)) := by
+  simp [stdConst, Ty.fn, Ty.bool]
 
 /-- every standard value fits its type -/
 theorem stdConst_lt (M : Model) (n : String) (T : Ty) (c : Nat) (h : stdConst M n T = some c) :
@@ -340,6 +356,10 @@ theorem stdConst_lt (M : Model) (n : String) (T : Ty) (c : Nat) (h : stdConst M 
       show choiceCode (M.size a) < M.size (Ty.fn (Ty.fn a Ty.bool) a)
       simp only [Model.size_fn, Model.size_bool]; exact choiceCode_lt _ (M.size_pos a)
     · cases h
+  · rename_i a
+    cases h
+    show varCode (M.size a) < M.size (Ty.fn a Ty.bool)
+    simp only [Model.size_fn, Model.size_bool]; exact varCode_lt _
   · cases h
 
 /-- the oracle's standard valuation is admissible -/
@@ -354,7 +374,7 @@ theorem stdVal_admissible (M : Model) : Admissible M (stdVal M) := by
 
 /-- and interprets the base logic in the standard way: `StdBase` is inhabited in every model -/
 theorem stdVal_stdBase (M : Model) : StdBase M (stdVal M) := by
-  refine ⟨?_, ?_, ?_, ?_, ?_, ?_, ?_, ?_, ?_, ?_⟩
+  refine ⟨?_, ?_, ?_, ?_, ?_, ?_, ?_, ?_, ?_, ?_, ?_⟩
   · simp [stdVal, stdConst_true]
   · simp [stdVal, stdConst_false]
   · simp [stdVal, stdConst_neg]
@@ -373,5 +393,6 @@ theorem stdVal_stdBase (M : Model) : StdBase M (stdVal M) := by
       simp [stdVal, stdConst_The]
     rw [this, appCode_choiceCode _ _ (M.size_pos a) hp]
     exact hu _ (leastWitness_lt _ _ (M.size_pos a)) (leastWitness_spec _ _ ⟨v, hv, h1⟩)
+  · intro a; simp [stdVal, stdConst_VAR]
 
 end Holpy
